@@ -18,6 +18,7 @@ PROPS = ["C01", "C02", "C03", "C04", "C05", "C06", "C07", "C08", "C09", "C10", "
 
 
 FALLBACK_CLAUSES = {
+    "C03": ["bounded:numpy-equals-rowwise"],
     "C01": ["ensures:view"],
     "C02": ["ensures:view"],
     "C04": ["ensures:reserialises-identically", "ensures:wf"],
